@@ -103,7 +103,7 @@ PROPS["C07"] = {
     "units": ["db"],
     "probes": {"db": ["db::Reader::read_file", "db::Reader::read_record", "db::RecordWriter::finish", "db::open"]},
     "level": "proof",
-    "assumptions": DB_ASSUME + ["db::open and Reader::read are under contract over a trusted file model (io.pre.rs: disk(path) = bytes on disk at entry, fcontent(file), append-mode writes go to the end, metadata().len()/set_len/File::create/BufReader::new wrappers): for every disk content that is a byte-prefix of a log n2 can write, the Writer returned by open appends to ds::kept(content) -- header + complete records, or a fresh header if the header itself was torn.  That kept(content) is again a loadable log ending at a record boundary (prefix-closure of wf_stream) is argued from the definitions, not proved as a lemma",
+    "assumptions": DB_ASSUME + ["db::open and Reader::read are under contract over a trusted file model (io.pre.rs: disk(path) = bytes on disk at entry, fcontent(file), append-mode writes go to the end, metadata().len()/set_len/File::create/BufReader::new wrappers): for every disk content that is a byte-prefix of a log n2 can write, the Writer returned by open appends to ds::kept(content) -- header + complete records, or a fresh header if the header itself was torn.  That kept(content) is again a loadable log ending exactly at a record boundary is proved (ds::lemma_take_valid / lemma_kept_complete: cutting a well-formed stream at its valid length leaves complete records only) and is part of db::open's postcondition (log_complete)",
                     "Reader methods carry the frame `the &mut Graph / &mut Hashes fields are not re-seated` (mut_ref_future), needed because Verus does not resolve &mut fields of a dropped struct by itself",
                     "what the kernel persists of one write is modelled as 'a prefix of the buffer' (write_all's Err/crash clause); fsync / ordering across files not modelled"],
 }
